@@ -403,7 +403,8 @@ long long c_accumulate(long long nrows, long long ncols,
 
     for(i=0; i<ntot; i++)
     {
-        if(i%nprint == 0)
+        /* No progress log if nprint <= 0 (i%0 is a division by zero) */
+        if(nprint > 0 && i%nprint == 0)
             fprintf(stdout, "\t\tCompleted accumulation ... %0.1f%%\n",
                 100*(double)(i)/(double)(ntot));
 
